@@ -87,7 +87,7 @@ theorem request_served_by_target (c : Cfg) (s : Sess) (msg : ClientMsg) (hid : m
   · rename_i svc' ht
     split at h
     · simp only [Option.some.injEq, Prod.mk.injEq] at h
-      rw [ht, h.1]
+      rw [← h.1]; exact target_of_reachable c s msg _ ht
     · simp at h
 
 /-- `target` spelled out: own type ⇒ the front; other type ⇒ the routed name, which is in the
@@ -183,7 +183,14 @@ instance of another type -/
 theorem no_target_gets_error (c : Cfg) (s : Sess) (msg : ClientMsg) (hid : msg.id ≠ 0) (hlt : msg.id < idWrap)
     (h : target c s (splitClientRoute msg.route).1 = none) :
     ∃ d, serve c s msg = [.respond d s.sid msg.id .error] :=
-  unserviceable_gets_error c s msg hid hlt (by simp [served, h])
+  unserviceable_gets_error c s msg hid hlt (by simp [served, reachable_none_of_target c s msg h])
+
+/-- a forwarded request whose envelope `remote.Serialize` cannot marshal (route not valid UTF-8):
+nothing is sent, exactly one error response -/
+theorem unserialisable_envelope_gets_error (c : Cfg) (s : Sess) (msg : ClientMsg) (hid : msg.id ≠ 0) (hlt : msg.id < idWrap)
+    (ht : (splitClientRoute msg.route).1 ≠ c.frontType) (hs : routeSerialisable msg.route = false) :
+    ∃ d, serve c s msg = [.respond d s.sid msg.id .error] :=
+  unserviceable_gets_error c s msg hid hlt (by simp [served, reachable_none_of_unserialisable c s msg ht hs])
 
 /-- unknown group or method at the target -/
 theorem unknown_method_gets_error (c : Cfg) (s : Sess) (msg : ClientMsg) (hid : msg.id ≠ 0) (hlt : msg.id < idWrap)
@@ -349,6 +356,9 @@ example : (run fixed c0 St.init [.req s1 ⟨5, "chat.zoo.slow", .valid 1⟩, .re
 example : serve c0 s1 ⟨5, "gate.zoo.nan", .valid 3⟩ = [.invoke "gate-1" "zoo" "nan" 3, .respond 0 7 5 .error] := by decide
 example : serve c0 s1 ⟨5, "chat.zoo.nan", .valid 3⟩ = [.invoke "chat-1" "zoo" "nan" 3, .respond 0 7 5 .blank] := by decide
 example := unserialisable_result c0 s1 ⟨5, "chat.zoo.nan", .valid 3⟩ (by decide) (by decide) "chat-1" "zoo" "nan" 3 (by decide)
+
+example : serve c0 ⟨9, some "chat-9", true⟩ ⟨5, "chat.zoo.ech\uFFFD", .valid 3⟩ = [.respond 0 9 5 .error] := by decide
+example := unserialisable_envelope_gets_error c0 s1 ⟨5, "hall.zoo.ech\uFFFD", .valid 3⟩ (by decide) (by decide) (by decide) (by decide)
 
 -- the conditional theorems instantiated (their hypotheses are satisfiable)
 example := request_served_by_target c0 s1 ⟨5, "chat.zoo.echo", .valid 3⟩ (by decide) (by decide) "chat-1" "zoo" "echo" 3 .ok (by decide)
